@@ -194,17 +194,33 @@ def short_lit(v, fd, rnd):
     return t
 
 
-def render_mod(mod):
+BUILTIN_NAMES = set(INT_KINDS) | set(LEN_KINDS) | {"decimal64", "boolean", "empty"}
+
+
+def has_dev_module(mod):
+    return any(n.get("home") == "dev" or (n.get("dev") or {}).get("where") == "other" for n in mod["nodes"])
+
+
+def render_mod(mod, which="base"):
     """nodes: typedef / leaf with one (parent, text) link, or with "union": [names of member nodes]; a node may sit in a
     scope (mod["scopes"][n["scope"]]: container, list, grouping (used once), rpc input / output) and have a YANG name
-    ("yname") that differs from its unique node name: same-named typedefs in sibling scopes"""
+    ("yname") that differs from its unique node name: same-named typedefs in sibling scopes.
+    A leaf with "dev" = {orig, where, leaflist, wrap} is written as a leaf / leaf-list of type `orig` (optionally inside a
+    container) and gets its (parent, text) type from a `deviation <path> { deviate replace { type ... } }` in the same
+    module (where = "same") or in a second module <name>_dev that imports this one (where = "other"); typedefs with
+    home = "dev" live in that second module (which = "dev" renders it) and may derive from typedefs of the first"""
     byname = {n["name"]: n for n in mod["nodes"]}
     kw = "range" if not mod["length"] else "length"
 
     def yname(name):
         return byname[name].get("yname", name) if name in byname else name
 
-    def type_stmt(n):
+    def ref(name, ctx):
+        if name in byname and byname[name].get("home") != "dev" and ctx == "dev":
+            return "b:" + yname(name)
+        return yname(name)
+
+    def type_stmt(n, ctx="base"):
         body = ""
         if n["parent"] == "decimal64":
             body += " fraction-digits %s;" % (mod.get("fdtext") if mod.get("fdtext") is not None else "%d" % mod["fd"])
@@ -212,18 +228,52 @@ def render_mod(mod):
             q = n.get("quote", "d")      # how the argument is written: "..", '..', "" + "..", or no argument at all (text "")
             arg = {"d": ' "%s"', "s": " '%s'", "c": ' "" + "%s"', "c2": ' "%s" + \'\'', "n": "%.0s"}[q] % n["text"]
             body += " %s%s;" % (kw, arg)
-        return "type %s {%s }" % (yname(n["parent"]), body) if body else "type %s;" % yname(n["parent"])
+        return "type %s {%s }" % (ref(n["parent"], ctx), body) if body else "type %s;" % ref(n["parent"], ctx)
 
-    def stmt(n):
+    def full_type(n, ctx="base"):
         if n.get("union") is not None:
-            ms = [type_stmt(byname[m]) for m in n["union"] if m in byname]
+            ms = [type_stmt(byname[m], ctx) for m in n["union"] if m in byname]
             extra = n.get("extra")
             if extra:
                 ms.insert(min(extra[0], len(ms)), "type %s;" % extra[1])
-            ty = "type union { %s }" % " ".join(ms)
-        else:
-            ty = type_stmt(n)
-        return " %s %s { %s }" % ("leaf" if n["leaf"] else "typedef", n.get("yname", n["name"]), ty)
+            return "type union { %s }" % " ".join(ms)
+        return type_stmt(n, ctx)
+
+    def deviation(n, ctx):
+        pfx = "b:" if ctx == "dev" else "t:"
+        nm = n.get("yname", n["name"])
+        path = "/%sw_%s/%s%s" % (pfx, nm, pfx, nm) if n["dev"].get("wrap") else "/%s%s" % (pfx, nm)
+        return " deviation %s { deviate replace { %s } }" % (path, full_type(n, ctx))
+
+    def orig_type(o):
+        if o == "decimal64":
+            return "type decimal64 { fraction-digits 1; }"
+        if o in BUILTIN_NAMES or (o in byname and not byname[o]["leaf"] and not byname[o].get("member")
+                                  and byname[o].get("home") != "dev" and byname[o].get("scope") is None):
+            return "type %s;" % yname(o)
+        return "type string;"
+
+    def stmt(n):
+        d = n.get("dev")
+        if d:
+            nm = n.get("yname", n["name"])
+            leaf = " %s %s { %s }" % ("leaf-list" if d.get("leaflist") else "leaf", nm, orig_type(d.get("orig", "string")))
+            if d.get("wrap"):
+                leaf = " container w_%s {%s }" % (nm, leaf)
+            return leaf + ("\n" + deviation(n, "base") if d.get("where") != "other" else "")
+        return " %s %s { %s }" % ("leaf" if n["leaf"] else "typedef", n.get("yname", n["name"]), full_type(n))
+
+    if which == "dev":
+        out = ['module %s_dev { prefix "d"; namespace "urn:%s_dev"; import %s { prefix b; }' % (mod["name"], mod["name"], mod["name"])]
+        for n in mod["nodes"]:
+            if n.get("member"):
+                continue
+            if n.get("home") == "dev" and not n["leaf"]:
+                out.append(" typedef %s { %s }" % (n.get("yname", n["name"]), full_type(n, "dev")))
+            elif n["leaf"] and (n.get("dev") or {}).get("where") == "other":
+                out.append(deviation(n, "dev"))
+        out.append("}")
+        return "\n".join(out)
 
     out = ['module %s { prefix "t"; namespace "urn:%s";' % (mod["name"], mod["name"])]
     scopes = mod.get("scopes") or []
@@ -236,7 +286,7 @@ def render_mod(mod):
 
     for what, x in layout:
         if what == "n":
-            if x in byname and not byname[x].get("member") and byname[x].get("scope") is None:
+            if x in byname and not byname[x].get("member") and byname[x].get("scope") is None and byname[x].get("home") != "dev":
                 out.append(stmt(byname[x]))
             continue
         sc = scopes[x]
@@ -255,6 +305,10 @@ def render_mod(mod):
             out.append(" rpc %s {\n%s\n }" % (sc["rpc"], "\n".join(parts)))
     out.append("}")
     return "\n".join(out)
+
+
+def render_all(mod):
+    return render_mod(mod) + ("\n" + render_mod(mod, "dev") if has_dev_module(mod) else "")
 
 
 def model_fold(mods):
@@ -369,6 +423,9 @@ def text_vals(t, fd):
 
 
 def go_line(mod, ops="L0,P,P"):
+    if has_dev_module(mod):     # the deviating module is loaded after or before the one it deviates
+        return "process - %s 2 %s %s %s %s" % ("L1,L0,P,P" if mod.get("devfirst") else "L0,L1,P,P", hexs(mod["name"] + ".yang"), hexs(render_mod(mod)),
+                                              hexs(mod["name"] + "_dev.yang"), hexs(render_mod(mod, "dev")))
     return "process - %s 1 %s %s" % (ops, hexs(mod["name"] + ".yang"), hexs(render_mod(mod)))
 
 
@@ -396,7 +453,7 @@ def compare_mod(mod, goline):
         j = json.loads(goline)
     except Exception:
         return "implementation output unreadable: %s" % goline[:200]
-    if j["loads"] != ["ok"]:
+    if j["loads"] != ["ok"] * (2 if has_dev_module(mod) else 1):
         return "module not loaded: %s" % j["loads"]
     byname = {n["name"]: n for n in mod["nodes"]}
     fd = mod["fd"] if mod["dec"] else 0
@@ -896,18 +953,155 @@ def fixed_empty_and_fd():
     return out
 
 
+
+# ------------------------------------------------------------------ the type statement of a deviate (another use site of Type.resolve)
+def bad_restriction(rnd, kind, fd, A, B, KLO, KHI, pts):
+    """a restriction text that is (most probably; the model decides) not acceptable under a parent A..B of the kind"""
+    unit = 10 ** max(0, fd - 1) if fd and fd < 18 else 1
+    L = lambda v: short_lit(v, fd, rnd)
+    x, y = sorted(rnd.sample(pts, 2)) if len(pts) >= 2 else (A, B)
+    c = rnd.randrange(10)
+    if c == 0 and B < KHI:
+        return "%s..%s" % (L(x), L(min(KHI, B + rnd.choice([1, 10, 45]) * unit)))        # above the parent
+    if c == 1 and A > KLO:
+        return "%s..%s" % (L(max(KLO, A - rnd.choice([1, 10, 45]) * unit)), L(y))        # below the parent
+    if c == 2:
+        return "%s..%s" % (L(x), lit(KHI + rnd.choice([1, 1, 2, 45]), fd))               # beyond the kind's maximum
+    if c == 3 and kind not in LEN_KINDS:
+        return "%s..%s" % (lit(KLO - rnd.choice([1, 1, 2, 45]), fd), L(y))               # beyond the kind's minimum
+    if c == 4 and x != y:
+        return "%s..%s" % (L(y), L(x))                                                   # bounds out of order
+    if c == 5 and x != y:
+        return "%s..%s|%s..%s" % (L(A), L(x), L(y), L(x))                                # second part out of order
+    if c == 6:
+        return rnd.choice(["%s..", "..%s", "%s...7", "-+%s", "%s|", "%s..%s..%s", "|%s", "%s.. ..%s"]).replace("%s", L(x))   # syntax
+    if c == 7 and fd and fd < 18:
+        return lit(x, fd) + "5"                                                          # more fraction digits than the type has
+    if c == 8 and kind == "int64" or kind == "uint64" and c == 8:
+        return "%d..%d" % (KLO, P64 if kind == "uint64" else P63)
+    if A > KLO or B < KHI:
+        return "%s..%s|%s" % (L(x), L(y), L(B + unit) if B < KHI else L(A - unit))       # one part outside
+    return "%s..%s" % (L(y), L(x)) if x != y else "%s.." % L(x)
+
+
+def gen_deviate(rnd, idx):
+    """leaves / leaf-lists that get their type from `deviate replace { type ... }`, in the same module or in a second module
+    that imports the first (typedef chain continued across the module boundary, either load order); the deviate type is
+    a restricted builtin / typedef / union member; about half of the restrictions are in error"""
+    import copy
+    kind = rnd.choice(list(INT_KINDS) * 2 + list(LEN_KINDS) * 2 + ["decimal64"] * 5)
+    fd = rnd.choice([1, 2, 9, 17, 18]) if kind == "decimal64" else 0
+    isl, dec, fd, KLO, KHI = kind_info(kind, fd)
+    unit = 10 ** max(0, fd - 1) if fd and fd < 18 else 1
+    if rnd.random() < 0.3:
+        A, B = KLO, KHI
+    else:
+        A = max(KLO, rnd.choice([0, 1, -5 * unit, KLO, KHI - 300 * unit]))
+        B = min(KHI, A + rnd.choice([10, 100, 255]) * unit)
+    pts = pick_points(rnd, A, B, 10)
+    nodes = [dict(name="small", parent=kind, leaf=False, text=None if (A, B) == (KLO, KHI) and rnd.random() < 0.5 else "%s..%s" % (short_lit(A, fd, rnd), short_lit(B, fd, rnd))),
+             dict(name="see_small", parent="small", text=None, leaf=True)]
+    bases, devbases = [kind, "small"], []
+    if rnd.random() < 0.6:
+        nodes.append(dict(name="holed", parent="small", leaf=False, text=parts_text(rnd, pts, A, B, fd, 2, True)))
+        bases.append("holed")
+    two = rnd.random() < 0.6
+    if two:
+        for i in range(rnd.randint(0, 2)):
+            par = rnd.choice(bases[1:] + devbases)
+            r = rnd.random()
+            nodes.append(dict(name="mine%d" % i, parent=par, leaf=False, home="dev",
+                              text=None if r < 0.15 else bad_restriction(rnd, kind, fd, A, B, KLO, KHI, pts) if r < 0.3 else parts_text(rnd, pts, A, B, fd, rnd.randint(1, 2), rnd.random() < 0.5)))
+            devbases.append("mine%d" % i)
+    origs = ["string", "boolean", kind, "small", rnd.choice(list(INT_KINDS)), "decimal64"]
+    for i in range(rnd.randint(2, 4)):
+        where = "other" if two and rnd.random() < 0.75 else "same"
+        dv = dict(orig=rnd.choice(origs), where=where, leaflist=rnd.random() < 0.35, wrap=rnd.random() < 0.3)
+        cand = bases + (devbases if where == "other" else [])
+        r = rnd.random()
+        tx = None if r < 0.1 else bad_restriction(rnd, kind, fd, A, B, KLO, KHI, pts) if r < 0.55 else parts_text(rnd, pts, A, B, fd, rnd.randint(1, 3), rnd.random() < 0.3)
+        if rnd.random() < 0.2:      # the deviate type is a union with a restricted member
+            ms = [dict(name="dv%d.m" % i, parent=rnd.choice(cand), text=tx, leaf=False, member=True),
+                  dict(name="dv%d.p" % i, parent=rnd.choice(cand), text=None, leaf=False, member=True)]
+            if rnd.random() < 0.5:
+                ms.reverse()
+            nodes += ms + [dict(name="dv%d" % i, parent=None, text=None, leaf=True, union=[m["name"] for m in ms], dev=dv)]
+        else:
+            nodes.append(dict(name="dv%d" % i, parent=rnd.choice(cand), text=tx, leaf=True, dev=dv))
+    if rnd.random() < 0.4:
+        head, tail = nodes[:1], nodes[1:]
+        rnd.shuffle(tail)
+        nodes = tail + head if rnd.random() < 0.4 else head + tail
+    m0 = dict(name="s%d" % (2 * idx), kind=kind, fd=fd, nodes=nodes, devfirst=rnd.random() < 0.5)   # even: rejected ones dropped, sets compared
+    m1 = copy.deepcopy(m0)
+    m1["name"] = "s%d" % (2 * idx + 1)                                                              # odd: one rejected one kept
+    return [m0, m1]
+
+
+def fixed_deviate():
+    """each way a restriction can be in error (and the nearest acceptable one), as the type of a deviate replace, on every
+    integer kind, on lengths and on decimal64 at fd 1, 2, 17, 18: on the builtin and on a typedef with an interior gap;
+    leaf / leaf-list, same / other module"""
+    out = []
+
+    def dv(kind, fd, tdtext, parent, text, variant):
+        where = "other" if variant & 1 else "same"
+        nodes = [dict(name="small", parent=kind, text=tdtext, leaf=False), dict(name="see_small", parent="small", text=None, leaf=True)]
+        par = parent
+        if variant & 4 and where == "other" and parent == "small":     # through a typedef of the deviating module
+            nodes.append(dict(name="mine", parent="small", text=None, leaf=False, home="dev"))
+            par = "mine"
+        nodes.append(dict(name="n", parent=par, text=text, leaf=True,
+                          dev=dict(orig=("string", kind, "small", "boolean")[variant % 4], where=where, leaflist=bool(variant & 2), wrap=bool(variant & 8))))
+        out.append(dict(name="f_dv%d" % len(out), kind=kind, fd=fd, nodes=nodes, devfirst=bool(variant & 16)))
+
+    v = 0
+    for kind, fd in [(k, 0) for k in list(INT_KINDS) + list(LEN_KINDS)] + [("decimal64", f) for f in (1, 2, 17, 18)]:
+        isl, dec, fd, KLO, KHI = kind_info(kind, fd)
+        u = 10 ** (fd - 1) if 0 < fd < 18 else 1
+        a = max(KLO, u) if fd < 18 else 1
+        T = lambda x: lit(x, fd)
+        td = "%s..%s | %s..%s" % (T(a), T(a + 10 * u), T(a + 30 * u), T(a + 40 * u))
+        on_builtin = [("%s..%s" % (T(a), T(KHI + 1)), "%s..%s" % (T(a), T(KHI))),          # one beyond the maximum / the maximum
+                      ("%s..%s" % (T(a + 5 * u), T(a)), "%s..%s" % (T(a), T(a + 5 * u))),  # out of order / in order
+                      ("%s..%s..%s" % (T(a), T(a + u), T(a + 2 * u)), "%s..%s|%s" % (T(a), T(a + u), T(a + 3 * u))),
+                      ("min..%s|%s" % (T(a), T(KHI + 45)), "min..%s|max" % T(a))]
+        if not isl:
+            on_builtin.append(("%s..%s" % (T(KLO - 1), T(a)), "%s..%s" % (T(KLO), T(a))))  # one below the minimum / the minimum
+        on_typedef = [("%s..%s" % (T(a + 5 * u), T(a + 35 * u)), "%s..%s|%s..%s" % (T(a + 5 * u), T(a + 10 * u), T(a + 30 * u), T(a + 35 * u))),   # spans the gap
+                      ("%s..%s" % (T(a), T(a + 10 * u + 1)), "%s..%s" % (T(a), T(a + 10 * u))),                                            # one above a part
+                      ("%s..max" % T(a + 30 * u - 1), "%s..max" % T(a + 30 * u)),                                                           # one below a part
+                      ("max..min", "min|max"), ("min..%s|%s" % (T(a + 2 * u), T(a + 41 * u)), "min..%s|%s" % (T(a + 2 * u), T(a + 40 * u)))]
+        for bad, good in on_builtin:
+            for t in (bad, good):
+                dv(kind, fd, td, kind, t, v)
+            v += 1
+        for bad, good in on_typedef:
+            for t in (bad, good):
+                dv(kind, fd, td, "small", t, v)
+            v += 1
+        v += 1
+    return out
+
+
 def run_modules(res, tier, seed):
     rnd = random.Random(seed * 7919 + 10)
-    mods = fixed_families() + fixed_symmetric() + fixed_signs() + fixed_scoped_union() + fixed_long_fraction() + fixed_empty_and_fd() + [gen_family(rnd, i) for i in range(700 if tier == "quick" else 12000)]
+    mods = fixed_families() + fixed_symmetric() + fixed_signs() + fixed_scoped_union() + fixed_long_fraction() + fixed_empty_and_fd() + fixed_deviate() + [gen_family(rnd, i) for i in range(700 if tier == "quick" else 12000)]
     for i in range(250 if tier == "quick" else 4000):
         mods += gen_symmetric(rnd, i)
     for i in range(200 if tier == "quick" else 3000):
         mods += gen_scoped(rnd, 100000 + i)
         mods += gen_union(rnd, 200000 + i)
+    for i in range(200 if tier == "quick" else 3000):
+        mods += gen_deviate(rnd, 300000 + i)
     evals = model_fold(mods)
     prune(mods, rnd)
     golines = lib.run_go([go_line(m) for m in mods])
     mism, rejected, leaves, restr = 0, 0, 0, 0
+    dev_sites = sum(1 for m in mods for n in m["nodes"] if n.get("dev"))
+    dev_rejected = sum(1 for m in mods if m["reject"] is not None and any(n["name"] == m["reject"] and (n.get("dev") or n.get("member")) for n in m["nodes"])
+                       and any(n.get("dev") for n in m["nodes"]))
+    dev_two = sum(1 for m in mods if has_dev_module(m))
     kinds = {}
     for mod, g in zip(mods, golines):
         kinds[mod["kind"]] = kinds.get(mod["kind"], 0) + 1
@@ -919,18 +1113,24 @@ def run_modules(res, tier, seed):
             mism += 1
             if mism <= 3:
                 res.violation("resolved range/length of a module differs from the proved model folded along the derivation chain: %s\n%s"
-                              % (d, render_mod(mod)[:1500]),
+                              % (d, render_all(mod)[:1800]),
                               dict(kind="module", module=dict(name=mod["name"], kind=mod["kind"], fd=mod["fd"], scopes=mod.get("scopes"), fdtext=mod.get("fdtext"), fdraw=mod.get("fdraw"),
-                                                               layout=mod.get("layout"),
+                                                               layout=mod.get("layout"), devfirst=mod.get("devfirst"),
                                                                nodes=[{k: v for k, v in n.items() if k != "m"} for n in mod["nodes"]])))
     return dict(modules=len(mods), model_links=evals, restrictions_checked=restr, leaves_compared=leaves, modules_with_one_rejected=rejected,
+                deviate_type_sites=dev_sites, deviate_type_rejections_expected=dev_rejected, modules_with_deviating_module=dev_two,
                 mismatches=mism, by_kind=kinds, sample_module=render_mod(mods[len(mods) // 2]),
                 rule="modules with typedef derivation chains (8 integer kinds, string/binary lengths, decimal64 at fd {1,2,3,9,17,18}) whose sets have "
                      "interior gaps, and sets symmetric around zero restricted to one end / a sign-flipped part with grandchildren legal only "
                      "in the wider set; typedefs of the same name in sibling scopes (container, list, grouping, rpc input/output) with disjoint sets "
                      "and the same restriction texts in every scope; restrictions inside union members (leaf and typedef unions) before/after an "
                      "unrestricted member of the same base, some of them in error; empty / absent / blank restriction arguments in every quoting form "
-                     "on every kind (builtin, typedef, restricted typedef, union member); decimal64 with fraction-digits outside 1..18 incl. values "
+                     "on every kind (builtin, typedef, restricted typedef, union member); the type statement of `deviate replace` as a further use site "
+                     "(leaf / leaf-list, top level / in a container, deviation in the same module or in a second module importing the first, either "
+                     "load order, typedef chain continued in the deviating module, union with a restricted member; original type of another kind): "
+                     "per kind the nearest rejected / accepted pair for each way of being in error (one beyond the kind's extremes, bounds out of "
+                     "order, too many '..', spanning a gap of the parent, one above / below a part) and random ones; Process must report an error "
+                     "iff the model rejects, else the deviated leaf's set is the model's; decimal64 with fraction-digits outside 1..18 incl. values "
                      "that are 1..18 modulo 2^8 / 2^16 / 2^32 / 2^64 (decided by the model's asRangeInt 1 18); several leaves/typedefs restrict DIFFERENT parents with byte-identical texts (numerals and min/max), statement "
                      "order varied; each module is parsed once and Process is run twice in one Modules value; model = Range.parseChildRanges folded "
                      "along each chain from the builtin base; Process error <=> the model rejects the (single) offending restriction; otherwise every "
@@ -958,7 +1158,11 @@ def run(res, tier, seed, proof):
     cov["mismatches"] += mcov["mismatches"]
     cov["module_level"] = mcov
     return cov, ["strings.Split/TrimSpace and strconv as modelled; sort.Sort returns a sorted permutation (modelled as insertion sort); "
-                 "-0 and 0 are identified in the comparison"]
+                 "-0 and 0 are identified in the comparison",
+                 "deviate replace { type }: the model is Range.parseChildRanges folded along the chain of the deviate's type (names resolved in the "
+                 "deviating module, imported typedefs by prefix); that ApplyDeviate puts exactly this type on the target leaf is part of what is "
+                 "compared, the target lookup itself (Find on the deviation path) is C17's/Schema.v's subject and only used with top-level or "
+                 "one-container-deep absolute paths here"]
 
 
 def replay(rep, res):
@@ -970,7 +1174,7 @@ def replay(rep, res):
         mod["nodes"] = [n for n in mod["nodes"] if n["m"][0] == "ok" or n["name"] == mod["reject"]]
         g = lib.run_go([go_line(mod)])[0]
         d = compare_mod(mod, g)
-        print(render_mod(mod), "\nmodel:", [(n["name"], n["m"]) for n in mod["nodes"]], "\nimpl :", g[:1500], "\n=>", d or "agree")
+        print(render_all(mod), "\nmodel:", [(n["name"], n["m"]) for n in mod["nodes"]], "\nimpl :", g[:1500], "\n=>", d or "agree")
         return 1 if d else 0
     c = rep["case"]
     go, ml = lib.run_go([c])[0], lib.run_ml([c])[0]
